@@ -358,10 +358,10 @@ Definition v1_penalty (s : state) (app asset amt : Z) : outcome state :=
   lift s1 (set_net_fee (cs s1) app asset amt)).
 
 (* generation-2 dutch close (bid.go) / TriggerEsm: coins in the DEBT denom, booked under
-   CollateralAssetId *)
+   DebtAssetId (since the fix of C13-F1; before, under CollateralAssetId) *)
 Definition v2_penalty (s : state) (app coll_asset debt_asset amt : Z) : outcome state :=
   obind (if amt >? 0 then lift s (csend (cs s) A_EXT A_COLLECTOR debt_asset amt) else Ok s) (fun s1 =>
-  lift s1 (set_net_fee (cs s1) app coll_asset amt)).
+  lift s1 (set_net_fee (cs s1) app debt_asset amt)).
 
 Definition flags_of (s : state) (app asset : Z) : aflags :=
   match amp (cs s) (app, asset) with Some f => f | None => mkAF false false false false end.
@@ -602,7 +602,7 @@ Definition nf_delta_spec (s : state) (o : op) (k : key) : Z :=
   | DecNetFee app asset amt => at_key app asset k (- amt)
   | SurplusFund app asset u denom amt => at_key app asset k (- amt)
   | V1Penalty app asset amt => at_key app asset k amt
-  | V2Penalty app ca da amt => at_key app ca k amt
+  | V2Penalty app ca da amt => at_key app da k amt
   | V1SurplusClose app asset lot bidder esm => if bidder && negb esm then 0 else at_key app asset k lot
   | V1DebtClose app asset amt bids esm => if esm then 0 else if bids then at_key app asset k amt else 0
   | V2SurplusClose app asset lot => at_key app asset k lot
@@ -644,9 +644,8 @@ Definition holds_C13_flow (apps assets : list Z) (s : state) (o : op) (s' : stat
     end) assets.
 
 (* ---- known-finding classes (DESIGN.md section 5) ---- *)
-(* C13-F1: generation-2 penalty booked under the collateral asset while the coins are debt-denom *)
-Definition kf_C13_1 (o : op) : bool :=
-  match o with V2Penalty app ca da amt => negb (ca =? da) && (amt >? 0) | _ => false end.
+(* C13-F1 (generation-2 penalty booked under the collateral asset while the coins are debt-denom)
+   is repaired in /repo: its class kf_C13_1 is gone *)
 (* C13-F2: generation-2 surplus auction: start sends the lot to the generation-1 auction account,
    close takes it from the collector again and re-credits the net fees *)
 Definition kf_C13_2 (o : op) : bool :=
@@ -656,7 +655,7 @@ Definition kf_C13_2 (o : op) : bool :=
 Definition kf_C13_3 (o : op) : bool :=
   match o with V2DebtClose app asset ca dd da => negb ((dd =? asset) && (ca =? da)) | _ => false end.
 
-Definition kf_C13_any (o : op) : bool := kf_C13_1 o || kf_C13_2 o || kf_C13_3 o.
+Definition kf_C13_any (o : op) : bool := kf_C13_2 o || kf_C13_3 o.
 
 (* ------------------------------------------------------------------------------------ *)
 (* Hypotheses of the property theorems (Properties/C13.v), executable.                   *)
@@ -688,7 +687,7 @@ Definition op_key (s : state) (o : op) : option key :=
   | FeeIn app asset _ _ | GetAmount app asset _ | DecNetFee app asset _ | SurplusFund app asset _ _ _ => Some (app, asset)
   | V1SurplusStart app asset | V1SurplusClose app asset _ _ _ | V1DebtStart app asset | V1DebtClose app asset _ _ _
   | V1Penalty app asset _ | V2CheckStats app asset | V2SurplusClose app asset _ | V2DebtClose app asset _ _ _ => Some (app, asset)
-  | V2Penalty app ca _ _ => Some (app, ca)
+  | V2Penalty app _ da _ => Some (app, da)
   | _ => None
   end.
 
